@@ -24,7 +24,7 @@ RULE = ("archives written by py7zr (every chain, header mode, +-password, 1..2 s
         "getinfo(name), getinfo(name+'/') find every listed name, KeyError otherwise; archiveinfo size/blocks/solid/method_names/uncompressed vs "
         "reference reader; needs_password == (AES coder present or password supplied). Archives py7zr cannot open/extract are C06's business and "
         "are skipped here. Cell = (origin, chain/features, header, aes, kinds).")
-ASSUMPTIONS = ["the reference reader's view of folders/coders is the ground truth for the summary", "archiveinfo() evaluated only for archives opened by path"]
+ASSUMPTIONS = ["the reference reader's view of folders/coders is the ground truth for the summary", "archiveinfo() is evaluated for the archive opened by path and, for its size, opened from a stream"]
 
 PY_NAME = {"COPY": "COPY", "DELTA": "DELTA", "BCJ": "BCJ", "PPC": "PPC", "IA64": "IA64", "ARM": "ARM", "ARMT": "ARMT", "SPARC": "SPARC", "LZMA": "LZMA",
            "LZMA2": "LZMA2", "PPMd": "PPMd", "BZip2": "BZip2", "DEFLATE": "DEFLATE", "DEFLATE64": "DEFLATE64", "ZStandard": "ZStandard", "Brotli": "Brotli",
@@ -185,18 +185,21 @@ def _check_archive(path, password, supplied_password, viol, obs, d, origin):
                 rec = disk.get(fi.filename.rstrip("/"))
                 if rec is not None and (rec["kind"] == "dir") != bool(fi.is_directory):
                     viol.append({"key": "isdir-vs-extraction", "what": "%r: is_directory=%s but extraction created a %s" % (fi.filename, fi.is_directory, rec["kind"])})
+            # a member without a stored modification time is listed without one
+            if rm is not None:
+                obs["list_times_checked"] = obs.get("list_times_checked", 0) + 1
+                if rm.mtime is None and fi.creationtime is not None:
+                    viol.append({"key": "list-invents-mtime", "what": "%r has no modification time in the archive, list() reports %r" % (fi.filename, fi.creationtime)})
             # getinfo
             if not dup:
-                for probe in (fi.filename, fi.filename + "/"):
+                for probe in (fi.filename, fi.filename.rstrip("/") + "/", fi.filename.rstrip("/")):
                     obs["getinfo_calls"] = obs.get("getinfo_calls", 0) + 1
                     try:
                         info = z.getinfo(probe)
                         if info.filename != fi.filename:
                             viol.append({"key": "getinfo-wrong-member", "what": "getinfo(%r) returned %r" % (probe, info.filename)})
                     except KeyError:
-                        if fi.filename.endswith("/"):
-                            continue
-                        viol.append({"key": "getinfo-misses-listed", "what": "getinfo(%r) raised KeyError for a listed name" % probe})
+                        viol.append({"key": "getinfo-misses-listed%s" % ("/stored-with-slash" if fi.filename.endswith("/") else ""), "what": "getinfo(%r) raised KeyError for a listed name" % probe})
                     except Exception as e:
                         viol.append({"key": "getinfo-raises/%s" % type(e).__name__, "what": "getinfo(%r): %s" % (probe, pz.exc_sig(e))})
         for bogus in ("no/such/member-xyzzy", gn[0] + "-nope" if gn else "x"):
@@ -215,7 +218,15 @@ def _check_archive(path, password, supplied_password, viol, obs, d, origin):
         want_np = has_aes or supplied_password is not None
         if bool(z.needs_password()) != want_np:
             viol.append({"key": "needs_password-wrong", "what": "needs_password()=%s; AES coder in main streams=%s, password supplied=%s" % (z.needs_password(), has_aes, supplied_password is not None)})
-        # summary
+        # summary, also for the same bytes opened from a stream
+        try:
+            with py7zr.SevenZipFile(io.BytesIO(data), "r", password=supplied_password) as zs:
+                ais = zs.archiveinfo()
+            obs["archiveinfo_on_stream"] = obs.get("archiveinfo_on_stream", 0) + 1
+            if ais.size != len(data):
+                viol.append({"key": "archiveinfo-size/stream", "what": "opened from a stream: archiveinfo().size=%r, archive has %d bytes" % (ais.size, len(data))})
+        except Exception as e:
+            viol.append({"key": "archiveinfo-raises/%s/stream" % type(e).__name__, "what": "opened from a stream: archiveinfo() raised %s" % pz.exc_sig(e)})
         try:
             ai = z.archiveinfo()
             obs["archiveinfo_checked"] = obs.get("archiveinfo_checked", 0) + 1
